@@ -82,19 +82,123 @@ const (
 //
 // Both key codecs are injective and strictly increasing, so the history means the same ordered
 // map; keys and values coming out of Get/Traverse are decoded back to the ints of the wire.
+//
+//	3  BTree[float64, float64] with the special keys: the codes c10NaN < c10NInf < c10NMax < -c10FW < k < c10FW
+//	                           < c10PMax < c10PInf stand for NaN, -Inf, -MaxFloat64, k/4 (k = -1, 1: the
+//	                           denormals -5e-324, 5e-324; k = 0: +0 or -0), MaxFloat64, +Inf.  The NaN
+//	                           carries another payload / sign bit and the zero another sign at every use.
+//	                           btree orders its keys with keyLess / keyEqual (NaN before every other key,
+//	                           all NaNs one key, -0 = +0), so the codec is strictly increasing for THAT
+//	                           order (theorems C10n_* in C10_PropsNaN.v); keys coming out of Traverse are
+//	                           canonicalised (any NaN -> c10NaN, -0 -> 0).
 const (
-	c10InstInt    = 0
-	c10InstString = 1
-	c10InstFloat  = 2
+	c10InstInt      = 0
+	c10InstString   = 1
+	c10InstFloat    = 2
+	c10InstFloatNaN = 3
 )
 
-var c10InstName = [3]string{"BTree[int,int]", "BTree[string,string]", "BTree[float64,float64]"}
+const (
+	c10FW   = 1000000
+	c10NaN  = -c10FW - 2
+	c10NInf = -c10FW - 1
+	c10NMax = -c10FW
+	c10PMax = c10FW
+	c10PInf = c10FW + 1
+)
+
+var c10InstName = [4]string{"BTree[int,int]", "BTree[string,string]", "BTree[float64,float64]", "BTree[float64,float64] with NaN, +-Inf, +-0 keys"}
 
 func c10Inst(in []int64) int {
-	if len(in) >= 3 && in[0] == c10Get && (in[2] == c10InstString || in[2] == c10InstFloat) {
+	if len(in) >= 3 && in[0] == c10Get && in[2] >= c10InstString && in[2] <= c10InstFloatNaN {
 		return int(in[2])
 	}
 	return c10InstInt
+}
+
+// c10SpecialKeys returns the codec of instance 3; `use` counts the key values built so far, so that
+// no two uses of the NaN (or of the zero) share a bit pattern.
+func c10SpecialKeys() (func(int) (float64, bool), func(float64) int64) {
+	use := uint64(0)
+	mk := func(k int) (float64, bool) {
+		use++
+		switch {
+		case k == c10NaN:
+			bits := uint64(0x7FF8000000000000) | (use*0x9E3779B97F4A7C15)>>13 | 1
+			if use%2 == 0 {
+				bits |= 1 << 63
+			}
+			if use%5 == 0 { // a signalling-NaN pattern from time to time
+				bits &^= 1 << 51
+			}
+			return math.Float64frombits(bits), true
+		case k == c10NInf:
+			return math.Inf(-1), true
+		case k == c10PInf:
+			return math.Inf(1), true
+		case k == c10NMax:
+			return -math.MaxFloat64, true
+		case k == c10PMax:
+			return math.MaxFloat64, true
+		case k == 0:
+			if use%2 == 0 {
+				return math.Copysign(0, -1), true
+			}
+			return 0, true
+		case k == 1:
+			return math.SmallestNonzeroFloat64, true
+		case k == -1:
+			return -math.SmallestNonzeroFloat64, true
+		case k > -c10FW && k < c10FW:
+			return float64(k) * 0.25, true
+		}
+		return 0, false
+	}
+	un := func(x float64) int64 {
+		switch {
+		case x != x:
+			return c10NaN
+		case math.IsInf(x, -1):
+			return c10NInf
+		case math.IsInf(x, 1):
+			return c10PInf
+		case x == -math.MaxFloat64:
+			return c10NMax
+		case x == math.MaxFloat64:
+			return c10PMax
+		case x == 0:
+			return 0 // -0 and +0 are one key
+		case x == math.SmallestNonzeroFloat64:
+			return 1
+		case x == -math.SmallestNonzeroFloat64:
+			return -1
+		}
+		return int64(x * 4)
+	}
+	return mk, un
+}
+
+// c10SpecialName: how Describe prints a key code of instance 3.
+func c10SpecialName(k int64) string {
+	switch k {
+	case c10NaN:
+		return "NaN"
+	case c10NInf:
+		return "-Inf"
+	case c10PInf:
+		return "+Inf"
+	case c10NMax:
+		return "-MaxFloat64"
+	case c10PMax:
+		return "MaxFloat64"
+	case 0:
+		return "+-0"
+	case 1:
+		return "5e-324"
+	case -1:
+		return "-5e-324"
+	}
+	return strconv.FormatFloat(float64(k)*0.25, 'g', -1, 64)
 }
 
 func c10StrKey(k int) (string, bool) {
@@ -133,6 +237,11 @@ func execC10(in []int64) []int64 {
 	case c10InstFloat:
 		return c10Run[float64, float64](in, c10FloatKey,
 			func(x float64) int64 { return c10Wire(int(x * 4)) },
+			func(v int) float64 { return float64(v) + 0.5 },
+			func(x float64) int64 { return int64(x - 0.5) })
+	case c10InstFloatNaN:
+		mk, un := c10SpecialKeys()
+		return c10Run[float64, float64](in, mk, un,
 			func(v int) float64 { return float64(v) + 0.5 },
 			func(x float64) int64 { return int64(x - 0.5) })
 	}
@@ -207,7 +316,11 @@ func c10Run[K cmp.Ordered, V any](in []int64, mkKey func(int) (K, bool), unKey f
 func describeC10(in []int64) string {
 	var sb strings.Builder
 	start := 0
-	if inst := c10Inst(in); inst != c10InstInt {
+	inst := c10Inst(in)
+	if inst == c10InstFloatNaN {
+		fmt.Fprintf(&sb, "on %s (keys shown as float64, values as the ints they encode): ", c10InstName[inst])
+		start = 3
+	} else if inst != c10InstInt {
 		// the selector record (it is executed as Get of key 0 on the empty tree)
 		fmt.Fprintf(&sb, "on %s (keys/values shown as the ints they encode): ", c10InstName[inst])
 		start = 3
@@ -216,14 +329,18 @@ func describeC10(in []int64) string {
 		if i > start {
 			sb.WriteString("; ")
 		}
-		key, _ := c10Key(in[i+1]) // the Go key the code stands for
+		ki, _ := c10Key(in[i+1]) // the Go key the code stands for
+		key := strconv.Itoa(ki)
+		if inst == c10InstFloatNaN {
+			key = c10SpecialName(in[i+1])
+		}
 		switch in[i] {
 		case c10Put:
-			fmt.Fprintf(&sb, "Put(%d,%d)", key, in[i+2])
+			fmt.Fprintf(&sb, "Put(%s,%d)", key, in[i+2])
 		case c10Remove:
-			fmt.Fprintf(&sb, "Remove(%d)", key)
+			fmt.Fprintf(&sb, "Remove(%s)", key)
 		case c10Get:
-			fmt.Fprintf(&sb, "Get(%d)", key)
+			fmt.Fprintf(&sb, "Get(%s)", key)
 		case c10Trav:
 			sb.WriteString("Traverse")
 		default:
@@ -294,10 +411,11 @@ func (s *c10Shadow) op(op, k int) string {
 }
 
 type c10Case struct {
-	w    W
-	sh   *c10Shadow
-	g    *Gen
-	inst int
+	w     W
+	sh    *c10Shadow
+	g     *Gen
+	inst  int
+	remap func(int) int // instance 3: which keys of the script become NaN, +-Inf, +-0 ... (nil: none)
 }
 
 // c10NewCase starts a case; for an instance other than int it begins with the selector record.
@@ -310,6 +428,9 @@ func c10NewCase(g *Gen, inst int) *c10Case {
 }
 
 func (c *c10Case) add(op, k, v int) {
+	if c.remap != nil && op != c10Trav {
+		k = c.remap(k)
+	}
 	c.w.Int(op).Int(k).Int(v)
 	c.g.Count(c.sh.op(op, k))
 }
@@ -339,7 +460,10 @@ func c10Bucket(n int) string {
 // answered: the last Height word before the traversal tells whether a root
 // split happened.
 func (c *c10Case) emit(stream string) {
-	if c.inst != c10InstInt { // the same script on another instantiation: stream "instances"
+	if c.inst == c10InstFloatNaN { // the scripts with NaN, +-Inf, +-0 keys: stream "nan"
+		c.g.Count("nan:" + stream)
+		stream = "nan"
+	} else if c.inst != c10InstInt { // the same script on another instantiation: stream "instances"
 		c.g.Count("instances:" + c10InstName[c.inst] + ":" + stream)
 		stream = "instances"
 	}
@@ -428,63 +552,69 @@ func c10Order(o, n int) []int {
 }
 
 func genC10(g *Gen) {
-	inst := c10InstInt // the instantiation the closures below generate for
-	newCase := func() *c10Case { return c10NewCase(g, inst) }
+	inst := c10InstInt      // the instantiation the closures below generate for
+	var remap func(int) int // instance 3 only: the script keys that become special values
+	newCase := func() *c10Case {
+		c := c10NewCase(g, inst)
+		c.remap = remap
+		return c
+	}
 	// ---- exhaustive small scope ----
 	// every sequence of up to L mutators over {Put k, Remove k : k in 0..5}; each mutator is
 	// followed by Get of its key (so every Remove;Get, Put;Get, Remove;Get;Put ... pattern is
 	// there), and the case ends with Get 0..5 and Traverse.  The value put at step i is
 	// 100*(i+1)+k, so a stale value is visible.
-	L := g.Pick(5, 6)
-	seqsUpTo(12, L, func(seq []int) {
-		c := newCase()
-		for i, x := range seq {
-			k := x % 6
-			if x < 6 {
-				c.add(c10Put, k, 100*(i+1)+k)
-			} else {
-				c.add(c10Remove, k, 0)
-			}
-			c.add(c10Get, k, 0)
-		}
-		for k := 0; k <= 5; k++ {
-			c.add(c10Get, k, 0)
-		}
-		c.emit("exhaustive")
-	})
-	// second exhaustive scope: EVERY insertion order of the keys 0..7 (thorough 0..8) — node
-	// splits propagate differently for every order, and 8 keys reach height 2 (an internal
-	// node splits) in part of the orders — followed by removes of the first and the middle
-	// key put, a lookup of every key, a re-put of the first key and its lookup.
-	nperm := g.Pick(8, 9)
-	perm := make([]int, nperm)
-	used := make([]bool, nperm)
-	var rec func(i int)
-	rec = func(i int) {
-		if i < nperm {
-			for k := 0; k < nperm; k++ {
-				if !used[k] {
-					used[k], perm[i] = true, k
-					rec(i + 1)
-					used[k] = false
+	genExh := func(L, nperm int) {
+		seqsUpTo(12, L, func(seq []int) {
+			c := newCase()
+			for i, x := range seq {
+				k := x % 6
+				if x < 6 {
+					c.add(c10Put, k, 100*(i+1)+k)
+				} else {
+					c.add(c10Remove, k, 0)
 				}
+				c.add(c10Get, k, 0)
 			}
-			return
+			for k := 0; k <= 5; k++ {
+				c.add(c10Get, k, 0)
+			}
+			c.emit("exhaustive")
+		})
+		// second exhaustive scope: EVERY insertion order of the keys 0..7 (thorough 0..8) — node
+		// splits propagate differently for every order, and 8 keys reach height 2 (an internal
+		// node splits) in part of the orders — followed by removes of the first and the middle
+		// key put, a lookup of every key, a re-put of the first key and its lookup.
+		perm := make([]int, nperm)
+		used := make([]bool, nperm)
+		var rec func(i int)
+		rec = func(i int) {
+			if i < nperm {
+				for k := 0; k < nperm; k++ {
+					if !used[k] {
+						used[k], perm[i] = true, k
+						rec(i + 1)
+						used[k] = false
+					}
+				}
+				return
+			}
+			c := newCase()
+			for j, k := range perm {
+				c.add(c10Put, k, 100+j)
+			}
+			c.add(c10Remove, perm[0], 0)
+			c.add(c10Remove, perm[nperm/2], 0)
+			for k := 0; k < nperm; k++ {
+				c.add(c10Get, k, 0)
+			}
+			c.add(c10Put, perm[0], 999)
+			c.add(c10Get, perm[0], 0)
+			c.emit("exhaustive")
 		}
-		c := newCase()
-		for j, k := range perm {
-			c.add(c10Put, k, 100+j)
-		}
-		c.add(c10Remove, perm[0], 0)
-		c.add(c10Remove, perm[nperm/2], 0)
-		for k := 0; k < nperm; k++ {
-			c.add(c10Get, k, 0)
-		}
-		c.add(c10Put, perm[0], 999)
-		c.add(c10Get, perm[0], 0)
-		c.emit("exhaustive")
+		rec(0)
 	}
-	rec(0)
+	genExh(g.Pick(5, 6), g.Pick(8, 9))
 	g.Exhaustive("exhaustive")
 
 	// ---- systematic insertion orders (stream "orders") ----
@@ -841,9 +971,71 @@ func genC10(g *Gen) {
 		}
 	}
 	inst = c10InstInt
+
+	// ---- keys that the bare < and == do not order: NaN; and +-Inf, +-MaxFloat64, denormals, +-0 (stream "nan") ----
+	// Instance 3 (see c10SpecialKeys).  (1) exhaustive: every sequence of up to 4 (thorough 5) mutators over
+	// {Put k, Remove k} for the six keys NaN, -Inf, -5e-324, +-0, 0.75, +Inf, Get after each, Get of all six and
+	// Traverse at the end; every insertion order of those six keys and 1.5 followed by two Removes, Get of all,
+	// re-Put.  (2) the orders, tombstone, random and large scripts in which the script keys -4/-3 and 5 are
+	// NaN, -2 and 6 are -Inf, 0 is +-0, -1/1 the denormals, 2 is +Inf, 3 MaxFloat64, 4 -MaxFloat64 — so the NaN
+	// is put first, last and in the middle, is a separator, is removed, revived, overwritten, looked up when
+	// absent, and sits next to -Inf.  Every use of the NaN has another payload and sign bit.
+	inst = c10InstFloatNaN
+	small := [6]int{c10NaN, c10NInf, -1, 0, 3, c10PInf}
+	remap = func(k int) int {
+		if k >= 0 && k < 6 {
+			return small[k]
+		}
+		return k
+	}
+	genExh(g.Pick(4, 5), 7)
+	remap = func(k int) int {
+		switch k {
+		case -4, -3, 5:
+			return c10NaN
+		case -2, 6:
+			return c10NInf
+		case 2:
+			return c10PInf
+		case 3:
+			return c10PMax
+		case 4:
+			return c10NMax
+		}
+		return k
+	}
+	genOrders(g.Pick(24, 60))
+	genTombstones(g.Pick(9, 14))
+	large(600, 3)
+	large(600, 1)
+	for i := 0; i < g.Pick(400, 4000); i++ {
+		random(12, 4+g.Rng.Intn(9), g.Rng.Intn(3), 0.6) // dense: the special keys are hit all the time
+	}
+	for i := 0; i < g.Pick(300, 3000); i++ {
+		random(40, 4+g.Rng.Intn(30), g.Rng.Intn(3), 0.5)
+	}
+	for i := 0; i < g.Pick(30, 300); i++ {
+		random(400, 60+g.Rng.Intn(341), i%3, 0.35)
+	}
+	// the shortest witnesses of the defect repaired by fixes/nan10 and of seeded C10-9
+	for _, ops := range [][][3]int{
+		{{c10Put, 1, 10}, {c10Put, 2, 20}, {c10Put, c10NaN, 99}, {c10Put, 3, 30}, {c10Get, 1, 0}, {c10Get, 2, 0}, {c10Get, c10NaN, 0}},
+		{{c10Put, 1, 10}, {c10Put, c10NaN, 99}, {c10Get, 1, 0}, {c10Get, c10NaN, 0}, {c10Put, c10NaN, 98}, {c10Get, c10NaN, 0}},
+		{{c10Put, 1, 10}, {c10Remove, 1, 0}, {c10Put, c10NaN, 99}, {c10Get, 1, 0}, {c10Remove, c10NaN, 0}, {c10Get, c10NaN, 0}},
+		{{c10Put, 0, 1}, {c10Put, 0, 2}, {c10Remove, 0, 0}, {c10Put, 0, 3}, {c10Get, 0, 0}},
+	} {
+		remap = nil
+		c := newCase()
+		for _, o := range ops {
+			c.add(o[0], o[1], o[2])
+		}
+		c.emit("witness")
+	}
+	remap = nil
+	inst = c10InstInt
 }
 
 func init() {
 	register(&Prop{ID: "C10", Exec: execC10, Gen: genC10, Describe: describeC10,
-		Rule: "exhaustive: every sequence of up to 5 (thorough 6) mutators over {Put k, Remove k : k in 0..5} (the value put at step i is 100(i+1)+k), each mutator followed by Get of its key, ending with Get 0..5 and Traverse; plus every insertion order of the keys 0..7 (thorough 0..8; height 2 is reached) followed by Remove of the first and the middle key put, Get of every key, re-Put and Get of the first key; Size/IsEmpty/Height observed after every operation. orders: 5..40 (thorough 5..160) keys 2i-n put in six fixed orders (ascending, descending, zig-zag outside-in and inside-out, evens up then odds down, saw-tooth of 4), Puts only, Height after every Put. tombstones: trees of 4..14 (thorough 4..26) keys built in each of those orders, then for EVERY key: Remove, Get of it / its neighbours / the absent keys beside it, Traverse, Remove again, re-Put, Get, Traverse; for every window of 2..4 consecutive keys: Remove all, Traverse, Get, re-Put one, Traverse; Remove all keys, Traverse, re-Put all in another order, Traverse. extreme: the 19 keys MinInt64, MinInt64+1, -2^62-1..-2^62+1, -2^60, -1000003, -1, 0, 1, 7, 2^31, 2^32+1, 2^60, 2^62-1..2^62+1, MaxInt64-1, MaxInt64 alone, mixed with -30..30 (40 keys), and the 5 keys MinInt64, -2^62, 0, 2^62, MaxInt64, in the six fixed orders and 40 (thorough 400) random orders each: Get of every key and of absent neighbours, Remove of every other key put, Traverse, Get of every key, re-Put of half of the removed ones (keys travel as order-preserving codes because the model runner reads 63-bit integers). large: 600 and 1100 keys 3i-n in sorted, reversed, interleaved and random order, 2500 sorted and reversed, 5000 random (thorough: 600, 1100, 2500, 5000 in all four orders, 10000 reversed and random); 7..12 levels, Remove of half of them, Traverse, re-Put of half of the removed, Get of EVERY key ever inserted and of absent keys between and beyond them. edge stream: empty history, operations on the empty tree, negative and +-2^62 keys, one key put/removed repeatedly. random: 1500 (thorough 15000) histories over keys 0..40 and 240 (thorough 2400) over keys 0..400 (60..400 distinct keys, 3..8 levels), keys first put in sorted / reversed / random order, interleaved with overwrites, removes of live, already-removed and absent keys, re-puts of removed keys, lookups of live, removed and absent keys and an occasional Traverse in the middle. instances: the orders (5..40 keys), the tombstone scripts on trees of 4..10 (thorough 4..14) keys, 300+40 (thorough 3000+400) random histories and two large trees (600 and 1100 keys) executed on BTree[string,string] (key = 20-digit decimal of k+2^63 built with strconv at every use, value = decimal string; also the extreme keys) and on BTree[float64,float64] (key = k/4, value = v+0.5; no NaN), decoded back to the ints of the wire; such a case starts with the selector record Get(0) whose ignored third word names the instance. non-trivial = the root split at least once (final Height >= 1) AND a live key was removed and later looked up or put again; distinct = distinct wire input"})
+		Rule: "exhaustive: every sequence of up to 5 (thorough 6) mutators over {Put k, Remove k : k in 0..5} (the value put at step i is 100(i+1)+k), each mutator followed by Get of its key, ending with Get 0..5 and Traverse; plus every insertion order of the keys 0..7 (thorough 0..8; height 2 is reached) followed by Remove of the first and the middle key put, Get of every key, re-Put and Get of the first key; Size/IsEmpty/Height observed after every operation. orders: 5..40 (thorough 5..160) keys 2i-n put in six fixed orders (ascending, descending, zig-zag outside-in and inside-out, evens up then odds down, saw-tooth of 4), Puts only, Height after every Put. tombstones: trees of 4..14 (thorough 4..26) keys built in each of those orders, then for EVERY key: Remove, Get of it / its neighbours / the absent keys beside it, Traverse, Remove again, re-Put, Get, Traverse; for every window of 2..4 consecutive keys: Remove all, Traverse, Get, re-Put one, Traverse; Remove all keys, Traverse, re-Put all in another order, Traverse. extreme: the 19 keys MinInt64, MinInt64+1, -2^62-1..-2^62+1, -2^60, -1000003, -1, 0, 1, 7, 2^31, 2^32+1, 2^60, 2^62-1..2^62+1, MaxInt64-1, MaxInt64 alone, mixed with -30..30 (40 keys), and the 5 keys MinInt64, -2^62, 0, 2^62, MaxInt64, in the six fixed orders and 40 (thorough 400) random orders each: Get of every key and of absent neighbours, Remove of every other key put, Traverse, Get of every key, re-Put of half of the removed ones (keys travel as order-preserving codes because the model runner reads 63-bit integers). large: 600 and 1100 keys 3i-n in sorted, reversed, interleaved and random order, 2500 sorted and reversed, 5000 random (thorough: 600, 1100, 2500, 5000 in all four orders, 10000 reversed and random); 7..12 levels, Remove of half of them, Traverse, re-Put of half of the removed, Get of EVERY key ever inserted and of absent keys between and beyond them. edge stream: empty history, operations on the empty tree, negative and +-2^62 keys, one key put/removed repeatedly. random: 1500 (thorough 15000) histories over keys 0..40 and 240 (thorough 2400) over keys 0..400 (60..400 distinct keys, 3..8 levels), keys first put in sorted / reversed / random order, interleaved with overwrites, removes of live, already-removed and absent keys, re-puts of removed keys, lookups of live, removed and absent keys and an occasional Traverse in the middle. instances: the orders (5..40 keys), the tombstone scripts on trees of 4..10 (thorough 4..14) keys, 300+40 (thorough 3000+400) random histories and two large trees (600 and 1100 keys) executed on BTree[string,string] (key = 20-digit decimal of k+2^63 built with strconv at every use, value = decimal string; also the extreme keys) and on BTree[float64,float64] (key = k/4, value = v+0.5; NaN, infinities and signed zeros: stream nan), decoded back to the ints of the wire; such a case starts with the selector record Get(0) whose ignored third word names the instance. nan: instance 3 = BTree[float64,float64] whose key codes -1000002 < -1000001 < -1000000 < k < 1000000 < 1000001 stand for NaN (another payload and sign bit at every use), -Inf, -MaxFloat64, k/4 (k = +-1: +-5e-324, k = 0: +0 and -0 alternately), MaxFloat64, +Inf, strictly increasing for the keyLess order of btree.go (NaN first), observations canonicalised (any NaN -> one code, -0 -> 0): every sequence of up to 4 (thorough 5) mutators over {Put k, Remove k} for the keys NaN, -Inf, -5e-324, +-0, 0.75, +Inf with Get after each, Get of all and Traverse; every insertion order of 7 such keys with two Removes, Gets, re-Put; the orders (5..24, thorough 5..60), tombstone (4..9, thorough 4..14), two large (600 keys) and 400+300+30 (thorough x10) random scripts in which the script keys -4/-3/5 are NaN, -2/6 -Inf, 0 +-0, +-1 the denormals, 2 +Inf, 3 MaxFloat64, 4 -MaxFloat64; four fixed witnesses. non-trivial = the root split at least once (final Height >= 1) AND a live key was removed and later looked up or put again; distinct = distinct wire input"})
 }
